@@ -63,6 +63,8 @@ def gen_world(rng, fmt=None, apdep=None, n_models=(1, 8), n_ap=(1, 5), n_wav=(5,
     w['mixed_kind'] = rng.choice(['different', 'same_ends'])
     w['sed_no_distance_key'] = rng.random() < 0.2     # per-file SEDs may omit DISTANCE (1 kpc is then assumed; the author uses 1 kpc)
     w['nan_param'] = rng.random() < 0.1               # one parameter value of the package may be NaN (unknown)
+    # per-file SEDs: "the order of the columns is not important" (docs), and optional component columns may be present
+    w['sed_columns'] = rng.choice(['plain', 'plain', 'swapped', 'extra_first', 'extra_between'])
     w['ext_n'] = rng.choice([3, 8, 40])
     # units in which the user states aperture radii and the distance range (any angle / length unit is legal)
     w['ap_unit'] = rng.choice(['arcsec', 'arcsec', 'arcmin', 'deg', 'mas'])
@@ -257,7 +259,8 @@ class World(object):
                     os.makedirs(sub, exist_ok=True)
                 write_sed_file(os.path.join(sub, nm + '_sed' + ext), nm, w, self.aps, v, e, dtype=self.dtype,
                                unit=spec.get('flux_unit', 'mJy'), err_unit=spec.get('err_unit'),
-                               distance_key=not (spec.get('sed_no_distance_key') and spec.get('flux_unit') != 'erg/s'))
+                               distance_key=not (spec.get('sed_no_distance_key') and spec.get('flux_unit') != 'erg/s'),
+                               columns=spec.get('sed_columns', 'plain'))
             self.write_params(d, self.perm if perm is None else perm, gz=gz)
         else:
             w, v, e = self.wav, self.val, self.unc
@@ -292,7 +295,8 @@ def _from_mjy(a, unit, wav, distance_cm):
     raise ValueError(unit)
 
 
-def write_sed_file(path, name, wav, aps, flux, err, dtype='f8', unit='mJy', distance_cm=KPC_CM, err_unit=None, distance_key=True):
+def write_sed_file(path, name, wav, aps, flux, err, dtype='f8', unit='mJy', distance_cm=KPC_CM, err_unit=None, distance_key=True,
+                   columns='plain'):
     err_unit = err_unit or unit
     flux = _from_mjy(flux, unit, wav, distance_cm)
     err = _from_mjy(err, err_unit, wav, distance_cm)
@@ -313,8 +317,13 @@ def write_sed_file(path, name, wav, aps, flux, err, dtype='f8', unit='mJy', dist
     h2.name = 'APERTURES'
     n = len(wav)
     f = ('%d' % n) + fc
-    h3 = fits.BinTableHDU.from_columns([fits.Column(name='TOTAL_FLUX', format=f, array=np.asarray(flux), unit=unit),
-                                        fits.Column(name='TOTAL_FLUX_ERR', format=f, array=np.asarray(err), unit=err_unit)])
+    cf = fits.Column(name='TOTAL_FLUX', format=f, array=np.asarray(flux), unit=unit)
+    ce = fits.Column(name='TOTAL_FLUX_ERR', format=f, array=np.asarray(err), unit=err_unit)
+    # optional component columns of the original format, filled with numbers that must never be mistaken for the total
+    cs = fits.Column(name='STELLAR_FLUX', format=f, array=np.asarray(flux) * 0.123, unit='Jy')
+    cse = fits.Column(name='STELLAR_FLUX_ERR', format=f, array=np.asarray(err) * 7.7, unit='Jy')
+    cols = {'plain': [cf, ce], 'swapped': [ce, cf], 'extra_first': [cs, cse, cf, ce], 'extra_between': [cf, cs, ce, cse]}[columns]
+    h3 = fits.BinTableHDU.from_columns(cols)
     h3.name = 'SEDS'
     fits.HDUList([h0, h1, h2, h3]).writeto(path, overwrite=True)
 
